@@ -46,6 +46,7 @@ static int prof_col(int i) {
   case 3: return 64 + 3 * i;
   case 4: return (i < 2) ? i : 61 + i;
   case 6: return (i < 3) ? i : 125 + i; /* pivots continue in the third word (KW >= 3): recursive PLE split */
+  case 8: return (i == 0) ? 0 : ((i <= GAPAT) ? 24 + i : 24 + i + GAPLEN); /* one pivot, 24-column gap, then GAPAT pivots in one block, gap */
   case 7: return i + (i >= GAPAT ? GAPLEN : 0);      /* one gap of GAPLEN columns after GAPAT pivots */
   default: return i;
   }
